@@ -256,6 +256,7 @@ def run(ctx) -> None:
     # two-digit year parts render the last two digits of a four-digit year; read back they are four-digit years again
     from checks.c14 import two_digit_year_rule
     two_digit_year_rule(ctx, "R4")
+    part_language_band_rule(ctx, "R2", "v2patterns", V2_PART_REF, V2_PART_REF_MAX)
     reader_fold_rule(ctx, "R4")
     part_occurrences_rule(ctx, "R4")
     bracket_loop_rule(ctx, "R3")
@@ -691,3 +692,47 @@ def parsed_quarter_rule(ctx, rule: str, fq: str) -> None:
         ctx.check(rule, ok, f"{fq}: the quarter is derived from the month only when none was parsed", f"{fq}: a parsed quarter is overwritten by the quarter of the month",
                   f"`{unparse(n.ast)}` is reached when {r.drop_unused().to_dnf() if r.atoms else 'always'}: the version's own quarter does not read back (and --pin-date does not keep it)",
                   loc=fn.loc(n.ast), witness={"version": "2021.1.12.1001", "pattern": "YYYY.Q.MM.BUILD", "flag": "--pin-date"})
+
+
+# The documented shape of every part (the pinned recognisers).  A recogniser may not accept more than REF_MAX (a text that is
+# accepted but cannot be rendered - `0123` for YYYY - does not read back, and a tag of that shape is taken for a version) and
+# not less than REF_MIN.  The two differ where the pinned tree is known to be too narrow (week 53, see known findings) or too
+# wide (\d in the legacy table also matches non-ASCII digits): a repair inside the band is not a finding.
+V2_PART_REF = {
+    'YYYY': '[1-9][0-9]{3}', 'YY': '[1-9][0-9]?', '0Y': '[0-9]{2}', 'GGGG': '[1-9][0-9]{3}', 'GG': '[1-9][0-9]?', '0G': '[0-9]{2}', 'Q': '[1-4]',
+    'MM': '1[0-2]|[1-9]', '0M': '1[0-2]|0[1-9]', 'DD': '3[0-1]|[1-2][0-9]|[1-9]', '0D': '3[0-1]|[1-2][0-9]|0[1-9]',
+    'JJJ': '36[0-6]|3[0-5][0-9]|[1-2][0-9][0-9]|[1-9][0-9]|[1-9]', '00J': '36[0-6]|3[0-5][0-9]|[1-2][0-9][0-9]|0[1-9][0-9]|00[1-9]',
+    'WW': '5[0-2]|[1-4][0-9]|[0-9]', '0W': '5[0-2]|[0-4][0-9]', 'UU': '5[0-2]|[1-4][0-9]|[0-9]', '0U': '5[0-2]|[0-4][0-9]',
+    'VV': '5[0-3]|[1-4][0-9]|[1-9]', '0V': '5[0-3]|[1-4][0-9]|0[1-9]', 'MAJOR': '[0-9]+', 'MINOR': '[0-9]+', 'PATCH': '[0-9]+', 'BUILD': '[0-9]+',
+    'BLD': '[1-9][0-9]*', 'TAG': 'preview|final|dev|alpha|beta|post|rc', 'PYTAG': 'dev|post|rc|a|b', 'GITHASH': '\\.[0-9]+\\+.*', 'HEXHASH': '[0-9a-f]+',
+    'NUM': '[0-9]+', 'INC0': '[0-9]+', 'INC1': '[1-9][0-9]*',
+}
+V2_PART_REF_MAX = dict(V2_PART_REF, WW='5[0-3]|[1-4][0-9]|[0-9]', UU='5[0-3]|[1-4][0-9]|[0-9]', **{'0W': '5[0-3]|[0-4][0-9]', '0U': '5[0-3]|[0-4][0-9]'})
+
+
+def part_language_band_rule(ctx, rule: str, modname: str, ref_min: T.Dict[str, str], ref_max: T.Dict[str, str], min_flags: int = 0) -> None:
+    """For every part of the pinned table: L(ref_min[p]) is a subset of L(PART_PATTERNS[p]), which is a subset of L(ref_max[p])
+    (DFA inclusion both ways; the spelling of the regex is free)."""
+    prog = ctx.prog
+    pats = prog.const(modname, "PART_PATTERNS")
+    n = 0
+    for part in sorted(ref_min):
+        if part not in pats:
+            continue          # a vanished part is the table rules' business
+        try:
+            cur = rl.from_regex(pats[part])
+            lo, hi = rl.from_regex(ref_min[part], min_flags), rl.from_regex(ref_max[part])
+        except rl.UnsupportedRegex as ex:
+            ctx.observe(f"{modname}.PART_PATTERNS[{part!r}]: not converted to an automaton ({ex})")
+            continue
+        n += 1
+        too_wide = rl.included(cur, hi)
+        too_narrow = rl.included(lo, cur)
+        ctx.check(rule, too_wide is None, f"{modname} part {part}: recognises nothing beyond its documented shape",
+                  f"{modname}.PART_PATTERNS[{part!r}] accepts text outside the part's documented shape",
+                  f"`{pats[part]}` accepts {too_wide!r}: such a text is taken for a version (a tag, a file occurrence) although no bump renders it, and it does not read back byte for byte",
+                  loc=f"src/bumpver/{modname}.py", witness={"part": part, "text": too_wide})
+        ctx.check(rule, too_narrow is None, f"{modname} part {part}: recognises its whole documented shape",
+                  f"{modname}.PART_PATTERNS[{part!r}] no longer accepts a text of the part's documented shape",
+                  f"`{pats[part]}` rejects {too_narrow!r}", loc=f"src/bumpver/{modname}.py", witness={"part": part, "text": too_narrow})
+    ctx.floor(rule, f"{modname} parts compared with their documented shape", n, min(len(ref_min), 25))
